@@ -1,16 +1,26 @@
-// Executor for C07: drives syncx.SingleFlight / LockedCalls / ResourceManager with
-// scripted threads under a forced schedule (verifh/sched) or free-running
-// (direct monitors, built with -race in the thorough tier).
+// Executor for C07: drives syncx.SingleFlight / LockedCalls / ResourceManager and the two
+// anchored users of the SingleFlight barrier (collection.Cache.Take, stores/cache node
+// Take / TakeWithExpire) with scripted threads under a forced schedule (verifh/sched) or
+// free-running (direct monitors, built with -race in the thorough tier).
 //
-// Case: {"id", "scripts": [[ [kind,key,val,err], ... ] per thread], "sched": [tid...], "free": bool}
+// Concurrent case: {"id", "scripts": [[ [kind,key,val,err], ... ] per thread], "sched": [tid...], "free": bool}
 //   kind 0 = SingleFlight.DoEx, 1 = LockedCalls.Do, 2 = ResourceManager.GetResource,
 //        3 = SingleFlight.Do (fresh not observable, reported as -1)
-//        4 = collection.Cache.Take, 5 = stores/cache node Take (miniredis) — the two anchored
-//            users of the barrier; only the event log is checked for them (prop_ok);
+//        4 = collection.Cache.Take, 5 = cache node Take, 8 = cache node TakeWithExpire (miniredis);
+//            only the event log is checked for them (prop_ok);
 //        6 / 7 = delete the key from the collection.Cache / the cache node
+//        9 = cache node: make every redis command fail (val = 1) / work again (val = 0)
+//   key:  key%1000 is the key string, key/1000 the INSTANCE (0 or 1): every primitive / cache exists
+//         twice, the two instances must not share anything.
+//   err:  0 = nil, > 0 = that error code (9 = the cache node's not-found error), -2 = the
+//         user function PANICS (after its gate).
 // Events (logical clock): inv (call invoked), fs / fe (user function started / ended),
-//   ret [val, err, fresh] (call returned).  The user function parks at gate "fn"
-//   between fs and fe.
+//   ret [val, err, fresh] (call returned; err -2 = the call panicked), del, fault.
+//   The user function parks at gate "fn" between fs and fe.
+//
+// Sequential ResourceManager case: {"rmseq": [[op,key,val,err], ...]}: op 0 = GetResource (create
+//   returns (val, err)), 1 = Inject(key, val), 2 = Close.  Resources whose id is divisible by 5 fail
+//   to Close.  Observation per op: [val, err, created] / [0,0,0] / [nclosed, nerrors, sum of closed ids].
 package main
 
 import (
@@ -38,6 +48,7 @@ type Case struct {
 	Sched   []int       `json:"sched"`
 	Free    bool        `json:"free"`
 	Spin    int         `json:"spin"`
+	RmSeq   [][]int64   `json:"rmseq"`
 }
 
 type Out struct {
@@ -46,12 +57,20 @@ type Out struct {
 	Steps   []sched.StepObs `json:"steps"`
 	Events  []sched.Event   `json:"events,omitempty"` // free mode: whole log
 	Monitor []string        `json:"monitor,omitempty"`
+	RmObs   [][]int64       `json:"rmobs,omitempty"`
 	Err     string          `json:"err,omitempty"`
 }
 
 type codeErr int64
 
 func (e codeErr) Error() string { return "e" + strconv.FormatInt(int64(e), 10) }
+
+const (
+	codeNotFound = 9
+	codePanic    = -2
+)
+
+var errNotFound = errors.New("verif: not found")
 
 func mkErr(e int64) error {
 	if e == 0 {
@@ -64,8 +83,12 @@ func errCode(err error) int64 {
 	if err == nil {
 		return 0
 	}
-	if ce, ok := err.(codeErr); ok {
+	var ce codeErr
+	if errors.As(err, &ce) {
 		return int64(ce)
+	}
+	if errors.Is(err, errNotFound) {
+		return codeNotFound
 	}
 	return -1
 }
@@ -93,40 +116,117 @@ func (g *gatedSF) DoEx(key string, fn func() (any, error)) (any, bool, error) {
 	return g.inner.DoEx(key, fn)
 }
 
-var errNotFound = errors.New("verif: not found")
+type res struct {
+	id     int64
+	closed *[]int64
+}
 
-type res struct{ id int64 }
-
-func (r *res) Close() error { return nil }
+func (r *res) Close() error {
+	if r.closed != nil {
+		*r.closed = append(*r.closed, r.id)
+	}
+	if r.id%5 == 0 {
+		return codeErr(r.id)
+	}
+	return nil
+}
 
 const stepTimeout = 5 * time.Second
 
+// one set of primitives; a case uses up to two of them
+type instance struct {
+	sf   syncx.SingleFlight
+	lc   syncx.LockedCalls
+	rm   *syncx.ResourceManager
+	cc   *collection.Cache
+	node cache.Cache
+	mini *miniredis.Miniredis
+	fault bool // set/read only by actors released one at a time (forced mode)
+}
+
+func runRmSeq(c Case) (out Out) {
+	out.ID = c.ID
+	defer func() {
+		if r := recover(); r != nil {
+			out.Err = fmt.Sprint("panic: ", r)
+		}
+	}()
+	rm := syncx.NewResourceManager()
+	var closed []int64
+	for _, op := range c.RmSeq {
+		ks := "k" + strconv.FormatInt(op[1], 10)
+		switch op[0] {
+		case 0:
+			created := int64(0)
+			r, err := rm.GetResource(ks, func() (io.Closer, error) {
+				created = 1
+				if op[3] != 0 {
+					return nil, mkErr(op[3])
+				}
+				return &res{id: op[2], closed: &closed}, nil
+			})
+			rv := int64(-1)
+			if x, ok := r.(*res); ok && x != nil {
+				rv = x.id
+			}
+			out.RmObs = append(out.RmObs, []int64{rv, errCode(err), created})
+		case 1:
+			rm.Inject(ks, &res{id: op[2], closed: &closed})
+			out.RmObs = append(out.RmObs, []int64{0, 0, 0})
+		case 2:
+			closed = nil
+			err := rm.Close()
+			var sum int64
+			for _, id := range closed {
+				sum += id
+			}
+			// errorx.BatchError joins the Close errors: report how many there are
+			got := int64(0)
+			if err != nil {
+				got = 1
+				if j, ok := err.(interface{ Unwrap() []error }); ok {
+					got = int64(len(j.Unwrap()))
+				}
+			}
+			out.RmObs = append(out.RmObs, []int64{int64(len(closed)), got, sum})
+		}
+	}
+	return out
+}
+
 func runCase(c Case) (out Out) {
+	if c.RmSeq != nil {
+		return runRmSeq(c)
+	}
 	out.ID = c.ID
 	ctl := sched.New(c.Free)
-	sf := syncx.NewSingleFlight()
-	lc := syncx.NewLockedCalls()
-	rm := syncx.NewResourceManager()
-	rm.VerifWrapFlight(func(inner syncx.SingleFlight) syncx.SingleFlight { return &gatedSF{inner: inner, ctl: ctl} })
 
+	var insts [2]*instance
+	inst := func(key int64) *instance {
+		n := int(key/1000) % 2
+		if insts[n] == nil {
+			in := &instance{sf: syncx.NewSingleFlight(), lc: syncx.NewLockedCalls(), rm: syncx.NewResourceManager()}
+			in.rm.VerifWrapFlight(func(inner syncx.SingleFlight) syncx.SingleFlight { return &gatedSF{inner: inner, ctl: ctl} })
+			insts[n] = in
+		}
+		return insts[n]
+	}
 	// the anchored users of the barrier, created on demand
-	var cc *collection.Cache
-	var node cache.Cache
-	var mini *miniredis.Miniredis
 	for _, sc := range c.Scripts {
 		for _, op := range sc {
-			if (op[0] == 4 || op[0] == 6) && cc == nil {
-				cc, _ = collection.NewCache(time.Hour)
+			in := inst(op[1])
+			if (op[0] == 4 || op[0] == 6) && in.cc == nil {
+				in.cc, _ = collection.NewCache(time.Hour)
 			}
-			if (op[0] == 5 || op[0] == 7) && node == nil {
+			if (op[0] == 5 || op[0] == 7 || op[0] == 8 || op[0] == 9) && in.node == nil {
 				var err error
-				mini, err = miniredis.Run()
+				in.mini, err = miniredis.Run()
 				if err != nil {
 					out.Err = "miniredis: " + err.Error()
 					return out
 				}
-				defer mini.Close()
-				node = cache.NewNode(redis.New(mini.Addr()), syncx.NewSingleFlight(), cache.NewStat("verif"), errNotFound)
+				defer in.mini.Close()
+				in.node = cache.NewNode(redis.New(in.mini.Addr()), syncx.NewSingleFlight(), cache.NewStat("verif"), errNotFound)
 				ctl.MinQuiet = 3 * time.Millisecond
 			}
 		}
@@ -155,7 +255,8 @@ func runCase(c Case) (out Out) {
 	}
 	var wg sync.WaitGroup
 
-	body := func(tid int, i int, grp, key int64) {
+	// the user function: fs, gate, fe; then it returns or panics (e == codePanic)
+	body := func(tid int, i int, grp, key, e int64) {
 		p := gauge(grp, key)
 		if n := atomic.AddInt32(p, 1); n > 1 {
 			report(fmt.Sprintf("two executions in progress for group %d key %d", grp, key))
@@ -171,6 +272,120 @@ func runCase(c Case) (out Out) {
 		}
 		ctl.Log(tid, "fe", i)
 		atomic.AddInt32(p, -1)
+		if e == codePanic {
+			panic(codeErr(codePanic))
+		}
+	}
+	asInt := func(v any) int64 {
+		if x, ok := v.(int64); ok {
+			return x
+		}
+		return -1
+	}
+
+	// one call; a panic coming out of it is reported as ret [-1, -2, -1]
+	call := func(tid, i int, op []int64) {
+		defer func() {
+			if r := recover(); r != nil {
+				ctl.Log(tid, "ret", i, -1, codePanic, -1)
+			}
+		}()
+		kind, key, val, e := op[0], op[1], op[2], op[3]
+		in := inst(key)
+		ks := "k" + strconv.FormatInt(key%1000, 10)
+		switch kind {
+		case 0, 3:
+			fn := func() (any, error) {
+				body(tid, i, 0, key, e)
+				return val, mkErr(e)
+			}
+			if kind == 0 {
+				v, f, err := in.sf.DoEx(ks, fn)
+				fresh := int64(0)
+				if f {
+					fresh = 1
+				}
+				ctl.Log(tid, "ret", i, asInt(v), errCode(err), fresh)
+			} else {
+				v, err := in.sf.Do(ks, fn)
+				ctl.Log(tid, "ret", i, asInt(v), errCode(err), -1)
+			}
+		case 1:
+			v, err := in.lc.Do(ks, func() (any, error) {
+				body(tid, i, 1, key, e)
+				return val, mkErr(e)
+			})
+			ctl.Log(tid, "ret", i, asInt(v), errCode(err), -1)
+		case 4:
+			v, err := in.cc.Take(ks, func() (any, error) {
+				body(tid, i, 4, key, e)
+				return val, mkErr(e)
+			})
+			ctl.Log(tid, "ret", i, asInt(v), errCode(err), -1)
+		case 5, 8:
+			var got int64 = -1
+			query := func(v any) error {
+				body(tid, i, 5, key, e)
+				if e == codeNotFound {
+					return errNotFound
+				}
+				if e != 0 {
+					return mkErr(e)
+				}
+				*(v.(*int64)) = val
+				return nil
+			}
+			var err error
+			if kind == 5 {
+				err = in.node.Take(&got, ks, query)
+			} else {
+				err = in.node.TakeWithExpire(&got, ks, func(v any, expire time.Duration) error {
+					if expire <= 0 {
+						return codeErr(-77)
+					}
+					return query(v)
+				})
+			}
+			if err != nil {
+				got = -1
+			}
+			ctl.Log(tid, "ret", i, got, errCode(err), -1)
+		case 6, 7: // invalidate the cached entry
+			ctl.Log(tid, "del", i, key)
+			if kind == 6 {
+				in.cc.Del(ks)
+			} else if in.fault {
+				// straight on the store: node.Del under a fault would start the real-time retry task
+				in.mini.Del(ks)
+			} else {
+				_ = in.node.Del(ks)
+			}
+			ctl.Log(tid, "ret", i, -1, 0, -2)
+		case 9:
+			if val != 0 {
+				ctl.Log(tid, "fault", i, 1)
+				in.fault = true
+				in.mini.SetError("verif fault")
+			} else {
+				in.mini.SetError("")
+				in.fault = false
+				ctl.Log(tid, "fault", i, 0)
+			}
+			ctl.Log(tid, "ret", i, -1, 0, -2)
+		case 2:
+			r, err := in.rm.GetResource(ks, func() (io.Closer, error) {
+				body(tid, i, 2, key, e)
+				if e != 0 {
+					return nil, mkErr(e)
+				}
+				return &res{id: val}, nil
+			})
+			rv := int64(-1)
+			if x, ok := r.(*res); ok && x != nil {
+				rv = x.id
+			}
+			ctl.Log(tid, "ret", i, rv, errCode(err), -1)
+		}
 	}
 
 	for tid, script := range c.Scripts {
@@ -179,93 +394,10 @@ func runCase(c Case) (out Out) {
 		ctl.Go(tid, func() {
 			defer wg.Done()
 			for i, op := range script {
-				i := i
-				kind, key, val, e := op[0], op[1], op[2], op[3]
-				ks := "k" + strconv.FormatInt(key, 10)
 				ctl.Gate(tid, "call", i)
 				ctl.SetOp(tid, i)
 				ctl.Log(tid, "inv", i)
-				switch kind {
-				case 0, 3:
-					fn := func() (any, error) {
-						body(tid, i, 0, key)
-						return val, mkErr(e)
-					}
-					var v any
-					var err error
-					fresh := int64(-1)
-					if kind == 0 {
-						var f bool
-						v, f, err = sf.DoEx(ks, fn)
-						if f {
-							fresh = 1
-						} else {
-							fresh = 0
-						}
-					} else {
-						v, err = sf.Do(ks, fn)
-					}
-					rv := int64(-1)
-					if x, ok := v.(int64); ok {
-						rv = x
-					}
-					ctl.Log(tid, "ret", i, rv, errCode(err), fresh)
-				case 1:
-					v, err := lc.Do(ks, func() (any, error) {
-						body(tid, i, 1, key)
-						return val, mkErr(e)
-					})
-					rv := int64(-1)
-					if x, ok := v.(int64); ok {
-						rv = x
-					}
-					ctl.Log(tid, "ret", i, rv, errCode(err), -1)
-				case 4:
-					v, err := cc.Take(ks, func() (any, error) {
-						body(tid, i, 4, key)
-						return val, mkErr(e)
-					})
-					rv := int64(-1)
-					if x, ok := v.(int64); ok {
-						rv = x
-					}
-					ctl.Log(tid, "ret", i, rv, errCode(err), -1)
-				case 5:
-					var got int64 = -1
-					err := node.Take(&got, ks, func(v any) error {
-						body(tid, i, 5, key)
-						if e != 0 {
-							return mkErr(e)
-						}
-						*(v.(*int64)) = val
-						return nil
-					})
-					if err != nil {
-						got = -1
-					}
-					ctl.Log(tid, "ret", i, got, errCode(err), -1)
-				case 6, 7: // invalidate the cached entry
-					ctl.Log(tid, "del", i, key)
-					if kind == 6 {
-						cc.Del(ks)
-					} else {
-						_ = node.Del(ks)
-					}
-					ctl.Log(tid, "ret", i, -1, 0, -2)
-				case 2:
-					r, err := rm.GetResource(ks, func() (io.Closer, error) {
-						body(tid, i, 2, key)
-						if e != 0 {
-							return nil, mkErr(e)
-						}
-						return &res{id: val}, nil
-					})
-					rv := int64(-1)
-					if x, ok := r.(*res); ok && x != nil {
-						rv = x.id
-					}
-					ctl.Log(tid, "ret", i, rv, errCode(err), -1)
-				}
+				call(tid, i, op)
 			}
 		})
 	}
